@@ -99,6 +99,15 @@ class Stream:
                 texts.append(text)
                 yield text, {'origin': 'mutant', 'what': '+'.join(what),
                              'style': style, 'spec': msp}
+            if self.mutants and rng.random() < 0.35:
+                d2 = D.dup_int_as_bool(sp, rng)
+                if d2 is not None:
+                    try:
+                        yield D.render(d2, rng.choice(self.styles)), {
+                            'origin': 'mutant', 'what': 'dup-int-as-bool',
+                            'spec': d2}
+                    except (ValueError, RecursionError):
+                        pass
             if self.aliases and rng.random() < self.aliases:
                 a2 = D.alias_two_scalars(sp, rng)
                 if a2 is not None:
